@@ -294,6 +294,7 @@ func libResetDepth(name string) int {
 type keptSlice struct {
 	s    []int
 	n    int
+	snap []int
 }
 
 func newJoin(c Cfg, w *vrt.World) *explore.Instance {
@@ -444,7 +445,7 @@ func newJoin(c Cfg, w *vrt.World) *explore.Instance {
 					if !equalInts(s, snap) {
 						m.f.fail("C08", "no-copy mode: delivered slice changed from %v to %v before it was released", snap, s)
 					}
-					kept = append(kept, keptSlice{s: s, n: len(s)})
+					kept = append(kept, keptSlice{s: s, n: len(s), snap: snap})
 					if c.Mode == "norelease" {
 						// v1: the consumer never signals release (Stop must still work)
 						vrt.Mark(vrt.Mix(uint64(len(kept)), 0xc3))
@@ -522,9 +523,13 @@ func newJoin(c Cfg, w *vrt.World) *explore.Instance {
 					return fmt.Sprintf("C16: Stop()/cancel did not complete: %s", w.Describe())
 				}
 			}
-			if want(c, "C08") && c.NoCopy {
+			if want(c, "C08") && c.NoCopy && !vrt.RaceBuild {
+				// v1: stopped or cancelled before the release signal: the delivered
+				// slice is never touched again
 				for _, k := range kept {
-					_ = k
+					if !equalInts(k.s[:k.n], k.snap) {
+						return fmt.Sprintf("C08: no-copy mode: a slice delivered as %v and not yet released when the discipline was stopped/cancelled now reads %v", k.snap, k.s[:k.n])
+					}
 				}
 			}
 		}
